@@ -1,12 +1,30 @@
 (* C09.v — Sorting yields an ordered permutation for every ranker
    Statements only: every theorem is closed by [exact] of a lemma proved elsewhere, and its
-   axioms are printed.  Generated once by tools/mkprop.py from the proved lemmas' statements. *)
-From Verif Require Import Base Sorter SorterProofs.
+   axioms are printed.  Generated once by tools/mkprop.py from the proved lemmas' statements. 
+   Round 2 (polish): an [Example] of non-vacuity beside the theorems (inconsistent rankers included;
+   data in SorterProofs2.v); from C09_default_collator_sort_ascending on: the "ascending" theorem for the
+   REAL default ranking without a total_preorder hypothesis (on the universe type and on raw values),
+   and the Sort/Reverse/Shuffle methods of Array, List and Catalog in the pool machine are the sorter. *)
+From Verif Require Import Base Sorter SorterProofs Value Seq Coll CollateRank CollateUse Pool PoolFrame SorterProofs2.
+Local Open Scope nat_scope.
 
 Theorem C09_sort_is_permutation_for_every_ranker :
   forall (A : Type) (rk : A -> A -> comparison) (l : list A),
          Permutation.Permutation (sort_values rk l) l.
 Proof. exact sort_perm. Qed.
+
+(* non-vacuity: an array of length 11 (not a power of two, with ties) under three deliberately
+   INCONSISTENT rankers (always Greater, always Lesser, parity of the sum): the sort terminates and
+   yields a permutation *)
+Example C09_sort_is_permutation_for_every_ranker_example :
+  sort_values always_gt ex_arr = [9; 7; 9; 8; 35; 5; 26; 9; 15; 4; 31]%Z /\
+  sort_values always_lt ex_arr = ex_arr /\
+  Permutation.Permutation (sort_values parity_rk ex_arr) ex_arr /\
+  parity_rk 1 2 = Gt /\ parity_rk 2 1 = Gt.
+Proof.
+  split; [vm_compute; reflexivity|]. split; [vm_compute; reflexivity|].
+  split; [apply C09_sort_is_permutation_for_every_ranker|]. split; reflexivity.
+Qed.
 
 Theorem C09_sort_keeps_length :
   forall (A : Type) (rk : A -> A -> comparison) (l : list A),
@@ -18,15 +36,36 @@ Theorem C09_sort_ascending_adjacent :
          total_preorder rk -> forall l : list A, Sorted.Sorted (not_gt rk) (sort_values rk l).
 Proof. exact sort_sorted. Qed.
 
+(* non-vacuity: the natural order and a coarse order (x/10, many ties) are total preorders; results computed *)
+Example C09_sort_ascending_adjacent_example :
+  total_preorder natZ /\ total_preorder coarse10 /\
+  sort_values natZ ex_arr = [4; 5; 7; 8; 9; 9; 9; 15; 26; 31; 35]%Z /\
+  ascendingb coarse10 (sort_values coarse10 ex_arr) = true /\
+  Sorted.Sorted (not_gt coarse10) (sort_values coarse10 ex_arr).
+Proof.
+  split; [exact natZ_total_preorder|]. split; [exact coarse10_total_preorder|].
+  split; [vm_compute; reflexivity|]. split; [vm_compute; reflexivity|].
+  apply C09_sort_ascending_adjacent. exact coarse10_total_preorder.
+Qed.
+
 Theorem C09_sort_ascending_all_pairs :
   forall (A : Type) (rk : A -> A -> comparison),
          total_preorder rk -> forall l : list A, Sorted.StronglySorted (not_gt rk) (sort_values rk l).
 Proof. exact sort_strongly_sorted. Qed.
 
+Example C09_sort_ascending_all_pairs_example :
+  total_preorder natZ /\ Sorted.StronglySorted (not_gt natZ) (sort_values natZ ex_arr).
+Proof. split; [exact natZ_total_preorder|]. apply C09_sort_ascending_all_pairs. exact natZ_total_preorder. Qed.
+
 Theorem C09_merge_is_permutation :
   forall (A : Type) (rk : A -> A -> comparison) (fuel : nat) (l r : list A),
          length l + length r <= fuel -> Permutation.Permutation (merge rk fuel l r) (l ++ r).
 Proof. exact merge_perm. Qed.
+
+Example C09_merge_is_permutation_example :
+  length [1; 4; 9]%Z + length [2; 4]%Z <= 5 /\ merge natZ 5 [1; 4; 9]%Z [2; 4]%Z = [1; 2; 4; 4; 9]%Z /\
+  merge always_gt 5 [1; 4; 9]%Z [2; 4]%Z = [2; 4; 1; 4; 9]%Z.
+Proof. split; [vm_compute; lia|]. split; vm_compute; reflexivity. Qed.
 
 Theorem C09_pass_is_permutation :
   forall (A : Type) (rk : A -> A -> comparison) (fuel w : nat) (l : list A),
@@ -37,6 +76,11 @@ Theorem C09_reverse_exact :
   forall (A : Type) (l : list A), reverse_values l = rev l.
 Proof. exact reverse_spec. Qed.
 
+Example C09_reverse_exact_example :
+  reverse_values ex_arr = [9; 7; 9; 8; 35; 5; 26; 9; 15; 4; 31]%Z /\ reverse_values (@nil Z) = [] /\
+  reverse_values [1; 2]%Z = [2; 1]%Z.
+Proof. repeat split; vm_compute; reflexivity. Qed.
+
 Theorem C09_reverse_twice_identity :
   forall (A : Type) (l : list A), reverse_values (reverse_values l) = l.
 Proof. exact reverse_involutive. Qed.
@@ -45,6 +89,91 @@ Theorem C09_shuffle_is_permutation :
   forall (A : Type) (rs : list nat) (l : list A),
          Permutation.Permutation (shuffle_values rs l) l.
 Proof. exact shuffle_perm. Qed.
+
+(* non-vacuity: random indices as recorded by the harness; an index >= size is ignored *)
+Example C09_shuffle_is_permutation_example :
+  shuffle_values [2; 0; 3; 9; 1] [10; 20; 30; 40; 50]%Z = [20; 50; 40; 10; 30]%Z /\
+  Permutation.Permutation (shuffle_values [2; 0; 3; 9; 1] [10; 20; 30; 40; 50]%Z) [10; 20; 30; 40; 50]%Z.
+Proof. split; [vm_compute; reflexivity|apply C09_shuffle_is_permutation]. Qed.
+
+Theorem C09_default_collator_sort_ascending :
+  forall (M : nat) (l : list (U M)),
+         Sorted.StronglySorted (not_gt (rkU M)) (sort_values (rkU M) l) /\
+         Permutation.Permutation (sort_values (rkU M) l) l.
+Proof. exact sort_with_collator_sorted. Qed.
+
+Theorem C09_raw_default_sort_ascending :
+  forall l : list val,
+         Forall in_universe l ->
+         Sorted.StronglySorted (not_gt rk_default) (sort_values rk_default l) /\
+         Sorted.Sorted (not_gt rk_default) (sort_values rk_default l) /\
+         Permutation.Permutation (sort_values rk_default l) l /\
+         Forall in_universe (sort_values rk_default l).
+Proof. exact sort_default_ascending. Qed.
+
+(* non-vacuity: a Go []any holding ints, strings and a nil — universe members — sorted by the default ranking *)
+Example C09_raw_default_sort_ascending_example :
+  Forall in_universe [VInt 0 5; VStr [98]%Z; VNil; VInt 0 (-2); VStr [97; 99]%Z; VInt 0 5] /\
+  sort_values rk_default [VInt 0 5; VStr [98]%Z; VNil; VInt 0 (-2); VStr [97; 99]%Z; VInt 0 5]
+    = [VNil; VInt 0 (-2); VInt 0 5; VInt 0 5; VStr [97; 99]%Z; VStr [98]%Z].
+Proof.
+  split; [|vm_compute; reflexivity].
+  repeat constructor; vm_compute; reflexivity.
+Qed.
+
+Theorem C09_sorter_commutes_with_renaming :
+  forall (A B : Type) (f : B -> A) (rkA : A -> A -> comparison) (l : list B),
+         sort_values rkA (map f l) = map f (sort_values (fun x y : B => rkA (f x) (f y)) l).
+Proof. exact sort_values_map. Qed.
+
+Theorem C09_pool_list_and_array_methods_are_the_sorter :
+  forall (zero : val) (p : list obj) (o : nat) (l : list val),
+         o < length p ->
+         (get p o = OLst l ->
+          nth o (fst (step zero p (SortValues o))) ODead = OLst (sort_values rk_default l) /\
+          (forall rk : nat,
+           nth o (fst (step zero p (SortWith o rk))) ODead = OLst (sort_values (ranker rk) l)) /\
+          nth o (fst (step zero p (ReverseValues o))) ODead = OLst (reverse_values l) /\
+          (forall rs : list nat,
+           nth o (fst (step zero p (ShuffleValues o rs))) ODead = OLst (shuffle_values rs l))) /\
+         (get p o = OArr l ->
+          nth o (fst (step zero p (SortValues o))) ODead = OArr (sort_values rk_default l) /\
+          (forall rk : nat,
+           nth o (fst (step zero p (SortWith o rk))) ODead = OArr (sort_values (ranker rk) l)) /\
+          nth o (fst (step zero p (ReverseValues o))) ODead = OArr (reverse_values l) /\
+          (forall rs : list nat,
+           nth o (fst (step zero p (ShuffleValues o rs))) ODead = OArr (shuffle_values rs l))).
+Proof. exact pool_sort_list_array. Qed.
+
+Example C09_pool_methods_example :
+  run (VInt 0 0) [] [NewSlice [VInt 0 3; VInt 0 1; VInt 0 2]; FromArray CList 0; FromArray CArray 0;
+                     SortValues 1; ReverseValues 2; SortWith 2 1] =
+    [OSlice [VInt 0 3; VInt 0 1; VInt 0 2]; OLst [VInt 0 1; VInt 0 2; VInt 0 3]; OArr [VInt 0 3; VInt 0 2; VInt 0 1]].
+Proof. vm_compute; reflexivity. Qed.
+
+Theorem C09_pool_catalog_sort_is_the_sorter_on_associations :
+  forall (zero : val) (p : list obj) (o : nat) (m : list (val * val)),
+         o < length p ->
+         get p o = OCat m ->
+         (exists m' : list (val * val),
+            nth o (fst (step zero p (SortValues o))) ODead = OCat m' /\
+            assoc_vals m' = sort_values rk_default (assoc_vals m) /\ Permutation.Permutation m' m) /\
+         (forall rk : nat,
+          exists m' : list (val * val),
+            nth o (fst (step zero p (SortWith o rk))) ODead = OCat m' /\
+            assoc_vals m' = sort_values (ranker rk) (assoc_vals m) /\ Permutation.Permutation m' m).
+Proof. exact pool_sort_catalog. Qed.
+
+Theorem C09_pool_catalog_reverse_shuffle :
+  forall (zero : val) (p : list obj) (o : nat) (m : list (val * val)),
+         o < length p ->
+         get p o = OCat m ->
+         nth o (fst (step zero p (ReverseValues o))) ODead = OCat (rev m) /\
+         (forall rs : list nat,
+          exists m' : list (val * val),
+            nth o (fst (step zero p (ShuffleValues o rs))) ODead = OCat m' /\
+            Permutation.Permutation m' m).
+Proof. exact pool_reverse_shuffle_catalog. Qed.
 
 
 Print Assumptions C09_sort_is_permutation_for_every_ranker.
@@ -56,3 +185,9 @@ Print Assumptions C09_pass_is_permutation.
 Print Assumptions C09_reverse_exact.
 Print Assumptions C09_reverse_twice_identity.
 Print Assumptions C09_shuffle_is_permutation.
+Print Assumptions C09_default_collator_sort_ascending.
+Print Assumptions C09_raw_default_sort_ascending.
+Print Assumptions C09_sorter_commutes_with_renaming.
+Print Assumptions C09_pool_list_and_array_methods_are_the_sorter.
+Print Assumptions C09_pool_catalog_sort_is_the_sorter_on_associations.
+Print Assumptions C09_pool_catalog_reverse_shuffle.
